@@ -26,6 +26,10 @@ TRUSTED = [
     "modelled as unpack of the physical block's bytes; goroutine scheduling of the TokenList workers enters only as "
     "the per-call arrival order (inferred by the harness from the TIDs the real list assigned); concurrent Append "
     "calls are not modelled",
+    "observation outside the property's quantifier (corrupted index files, not a finding): Block.unpack panics instead "
+    "of returning its error on bytes ending 1..3 bytes after a record; the model predicts it (UPanic, "
+    "C13_block_unpack_total_refuted / _partial), the class unpack-malformed checks agreement and counts "
+    "observation:block-unpack-short-tail; a panic the model does not predict is a violation",
     "the composition 'table entries of one field cut to SelectEntries [l,r) form a served cover' is only tested "
     "(class rand-writer runs sealed_search_bytes against the real SelectEntries+Provider+Search); see "
     "C13_sealed_equals_scan_bytes_partial",
